@@ -76,6 +76,18 @@ CHECKS = {
    "SoyPO.tla: extraction (msgid, msgid_plural, id=/var= references), validation, identity/reversing/partial translation, loading, plural rules for 1/2/3-form locales and render-time substitution; TLC checks the round-trip laws on every PO-representable message of the pool and that 4 deviations are caught; on the real code the xgettext-soy binary (built from the tree) extracts from generated files, the PO output is parsed, translated, loaded with pomsg.Load and rendered by the Go renderer and - through soyjs Options.Messages - by generated JavaScript in node, all compared with the spec",
    "robfig/gettext/po (a dependency) parses the PO files; node executes the generated code",
    "TLA+ PO round-trip model checked by TLC + real extractor/loader/renderers (Go and generated JS) replaying exported messages", "§5 C11"),
+ "C05": ("model_checking",
+   "SoyLexer.tla: the scanner as a finite automaton over (control point x character class) with lazily chosen input, so TLC decides for inputs of every length Progress, NoSpin, NoCrash and, under weak fairness, termination; SoyLexParse.tla: scanner goroutines and parser frames over rendez-vous channels (ParserProgress, NoSendOnClosed, NoPanicEscapes, Terminates), refining the hook protocol SoyLexProto; every named deviation (css/header-param/string/comment/soydoc/literal EOF loops, switch ignoring unknown tokens, ...) must be caught; on the real code one input per transition of the model's state graph (EOF in every state), all pairs (thorough: triples) of a 105-entry tag dictionary in 31 contexts, every prefix of the test files, token deletions/duplications/swaps and random bytes are parsed in worker subprocesses: returns, no panic, scanner steps linear in the input; recorded hook traces are validated by TLC",
+   "a hang is declared only by a probe in a fresh process (10 s watchdog, two identical stack samples, twice); 'proportional time' is approximated by a step bound of 12*len+64",
+   "TLA+ lexer automaton / lexer-parser protocol model checked by TLC + model-derived and dictionary inputs replayed in isolated workers + TLC validation of hook traces", "§5 C05"),
+ "C18": ("model_checking",
+   "SoyLexParse.tla / SoyLexProto.tla: NoLeak (when a parse entry point has returned every scanner has closed its channel or had its last item received) on every exit path of SoyFile, Expr and the nested quoted-expression parser; deviations expr_no_drain / quoted_no_drain / recover_no_drain / runtime_panic_in_frame must break it; on the real code every C05 input plus expressions with trailing tokens and errors inside quoted attribute expressions and globals files are parsed in sequences of 1000 per process: the hook trace must show close (or last item received) before return for every scanner, and independently the goroutine profile must return to baseline; sampled traces are validated by TLC",
+   "a leak is a violation only when hooks, goroutine profile and the end-of-sequence poll agree",
+   "TLA+ protocol model checked by TLC + hook-trace conformance and goroutine-profile observation on the real parser", "§5 C18"),
+ "C19": ("model_checking",
+   "parse half: SoyLexParse.tla carries item positions (PosInInput; deviations error_uses_zero_item / quoted_pos_relative); generated valid files x 13 fault kinds x every line, the reported file/line must be the fault's; render half: SoyErrPos.tla models which node the error of a failing render is built from (PositionOK; 3 deviations) and exports every layout (0-2 enclosing blocks x 8 failing commands x call depth 0-3 in a second file) with its source lines and the allowed line interval, replayed on the real renderer",
+   "for unterminated constructs any line from the construct's first line to the end is accepted; for render errors any line on the path from the outermost enclosing command to the failing command",
+   "TLA+ position models checked by TLC + fault injection at every line (parse) and TLC-exported layouts (render) replayed on the real code", "§5 C19"),
 }
 
 NOT_YET = {
